@@ -230,7 +230,16 @@ func convertType(t RBSType, aliases typeAliasMap, className string) []string {
 			return []string{"Hash"}
 		}
 		if resolved, ok := aliases[t.Name]; ok {
-			return convertType(resolved, aliases, className)
+			// an alias that names itself, directly or through others, resolves to
+			// nothing: the definition of an alias is read without that alias
+			others := make(typeAliasMap, len(aliases))
+			for name, aliased := range aliases {
+				if name != t.Name {
+					others[name] = aliased
+				}
+			}
+
+			return convertType(resolved, others, className)
 		}
 		return []string{"Untyped"}
 	case "intersection":
